@@ -146,12 +146,46 @@ def _shard_exh(rec, arg):
         rec.sample({"program": progs.render(WRAPS["for"](WRAPS["lambda-call"](BODIES["1X2"])) + [E("n")])})
 
 
+def repair(seq, in_fn=False):
+    """Keep generated programs runnable (fewer discards, same grammar): `x` outside any lambda / function has no
+    function to recurse into (NameError) and becomes X; a general while loop whose body cannot leave gets a final X."""
+    out = []
+    for n in seq:
+        k = n[0]
+        if k == "rec" and not in_fn:
+            out.append(["brk"])
+        elif k == "if":
+            out.append(["if", [repair(b, in_fn) for b in n[1]]])
+        elif k == "for":
+            out.append(["for", n[1], repair(n[2], in_fn)])
+        elif k == "while":
+            body = repair(n[2], in_fn)
+            counter = n[1] == [["el", ":"]] and body[-1:] == [["el", "‹"]]
+            if not counter and not any(m[0] == "brk" for m in body):
+                body = body + [["brk"]]
+            out.append(["while", repair(n[1], in_fn) if n[1] is not None else None, body])
+        elif k == "lam":
+            out.append(["lam", n[1], repair(n[2], True)])
+        elif k in ("map", "flt", "srt"):
+            out.append([k, repair(n[1], True)])
+        elif k == "def":
+            out.append(["def", n[1], n[2], repair(n[3], True)])
+        elif k == "list":
+            out.append(["list", [repair(b, in_fn) for b in n[1]]])
+        elif k == "mod":
+            out.append(["mod", n[1], repair(n[2], in_fn)])
+        else:
+            out.append(n)
+    return out
+
+
 def _shard_hyp(rec, arg):
     from hypothesis import strategies as st
 
     seed, n = arg
 
     def t(p, ins):
+        p = repair(p)
         _do(rec, p, tuple(ins), ["generated", f"depth{progs.ast_depth(p)}"])
         if len(rec.samples) < 5 and progs.ast_depth(p) >= 2:
             rec.sample({"program": progs.render(p), "inputs": list(ins)})
